@@ -856,6 +856,9 @@ def parseConditional (isAlnum : Char → Bool) : Nat → Bytes → PState → Na
     if ix ≥ re.size then .err .unclosedOpenParen ix
     else
       let b ← byteAt re ix "parse_conditional: bytes[ix]"
+      -- `(?(1)..)`, `(?('name')..)`, `(?(<name>)..)` test whether the group has matched; any other
+      -- condition is an expression to be matched (also when that expression is a back-reference)
+      let isGroupTest := isDigit b || b == ch '\'' || b == ch '<'
       let (next, condition, st) ←
         (if isDigit b then parseNumberedBackref re st ix .backref
          else if b == ch '\'' then
@@ -867,11 +870,11 @@ def parseConditional (isAlnum : Char → Bool) : Nat → Bytes → PState → Na
       let (end_, child, st) ← parseRe isAlnum f re st next depth
       let hasElse := st.lastReHadAlt
       if end_ == next then
-        match condition with
-        | .backref g =>
+        match isGroupTest, condition with
+        | true, .backref g =>
           let after ← checkForCloseParen re st.flags end_
           .ok (after, .backrefExists g, st)
-        | _ => .err (.general .expectedConditional) end_
+        | _, _ => .err (.general .expectedConditional) end_
       else
         -- (if_true, if_false)
         let branches : Expr × Expr ←
@@ -885,9 +888,9 @@ def parseConditional (isAlnum : Char → Bool) : Nat → Bytes → PState → Na
               | _ => pure (t, .alt rest)
           | c, _ => pure (c, .empty))
         let innerCondition : Expr :=
-          match condition with
-          | .backref g => .backrefExists g
-          | c => c
+          match isGroupTest, condition with
+          | true, .backref g => .backrefExists g
+          | _, c => c
         let after ← checkForCloseParen re st.flags end_
         if !hasElse && branches.1.isEmpty then .ok (after, innerCondition, st)
         else .ok (after, .cond innerCondition branches.1 branches.2, st)
